@@ -13,8 +13,18 @@ MOD = 'TEXTS-MIB'
 PLAIN = 'plain text'
 
 
+# the LONG word comes in several lengths (by salt): around the wrap width of the pysnmp template (79), so that what
+# follows it - an escaped backslash, an escaped line break - can land exactly on the wrap position
+LONG_LENS = [90, 78, 157, 77, 76]
+
+
+def long_len(salt):
+    return LONG_LENS[salt % len(LONG_LENS)]
+
+
 def concrete(classes, salt):
-    return ''.join((ALT.get(c, REP[c]) if (salt + i) % 2 else REP[c]) for i, c in enumerate(classes))
+    return ''.join(('x' * long_len(salt)) if c == 'LONG' else (ALT.get(c, REP[c]) if (salt + i) % 2 else REP[c])
+                   for i, c in enumerate(classes))
 
 
 def canon(classes):
@@ -29,7 +39,17 @@ MULTI = [(v, k) for k, v in list(REP.items()) + list(ALT.items()) if len(v) > 1 
 MULTI.sort(key=lambda x: -len(x[0]))
 
 
-def tokenize(s):
+def unwrap(observed, original):
+    """Reading of "equal up to whitespace" for wrapped output: white space that line wrapping inserted INSIDE a word longer
+    than the line is removed again (the word is found in the observed string with optional white space between its
+    characters).  Nothing else is touched: a character that is added, dropped or replaced keeps the strings apart."""
+    for w in sorted(set(re.findall(r'\S{70,}', original)), key=len, reverse=True):
+        rx = r'\s*'.join(re.escape(ch) for ch in w)
+        observed = re.sub(rx, lambda m: w, observed, count=1)
+    return observed
+
+
+def tokenize(s, L=90):
     """observed string -> class sequence (canonical: TRIAPOS and CRLF expanded); a LONG word broken by white space is re-joined"""
     out, i = [], 0
     while i < len(s):
@@ -51,12 +71,12 @@ def tokenize(s):
     while j < len(out):
         if isinstance(out[j], tuple):
             total, k, notes = out[j][1], j + 1, 0
-            while total % 90 and k + 1 < len(out) and out[k] in ('SP', 'LF', 'TAB', 'CR') and isinstance(out[k + 1], tuple):
+            while total % L and k + 1 < len(out) and out[k] in ('SP', 'LF', 'TAB', 'CR') and isinstance(out[k + 1], tuple):
                 total += out[k + 1][1]
                 k += 2
                 notes += 1
-            if total and total % 90 == 0:
-                res += ['LONG'] * (total // 90)
+            if total and total % L == 0:
+                res += ['LONG'] * (total // L)
                 j = k
                 continue
             res.append('?x%d' % out[j][1])
@@ -144,7 +164,7 @@ def replay_one(args):
                 sym, key = JSON_AT[sc['clause']]
                 v = doc.get(sym, {}).get(key)
             if v is not None and not (sc['clause'] == 'DESCRIPTION' and False):
-                obs['json'] = {'present': True, 'text': tokenize(v)}
+                obs['json'] = {'present': True, 'text': tokenize(v, long_len(salt))}
         if with_py:
             pp = mibs.Pipeline({MOD: text}, backend='pysnmp')
             rp = pp.compile(MOD, **opts)
@@ -172,7 +192,7 @@ def replay_one(args):
                             else:
                                 v = getattr(o, meth)() if o is not None else None
                             if v not in (None, ''):
-                                obs['py'] = {'present': True, 'text': tokenize(v if isinstance(v, str) else v.decode('utf-8')), 'loads': True}
+                                obs['py'] = {'present': True, 'text': tokenize(unwrap(v if isinstance(v, str) else v.decode('utf-8'), concrete_text), long_len(salt)), 'loads': True}
                         except Exception as exc:
                             obs['error'] = 'observe: %s %s' % (type(exc).__name__, exc)
     sc2 = dict(sc)
